@@ -20,6 +20,7 @@ import CelloProofs.Lemmas.DispLive
 import CelloProofs.Lemmas.DispNew
 import CelloProofs.Lemmas.DispHeap
 import CelloProofs.Lemmas.DispBorrow
+import CelloProofs.Lemmas.DispId
 
 namespace Cello.Dispatch
 
@@ -632,6 +633,145 @@ example :
        .cast (.ok .self), .cast (.raised .ValueError), .cast (.ok .self), .cast (.raised .ValueError),
        .constructed (.raised .OutOfMemoryError), .ub] ∧
     (Heap.run layoutNow staleHeap ops).1.okb CelloGen.Disp.cacheNum = true := by
+  decide +kernel
+
+/-! ## type objects have identities, not addresses: creation, deletion and re-use of addresses; dispatching calls -/
+
+/-- G5': every library function of src/*.c that dispatches on its receiver — written with `method(self, C, M, …)`, or starting
+    `struct C* c = instance(self, C); if (c and c->M) …` — names a class struct of include/Cello.h and a member inside it (the
+    member index is the position of `M` in `struct C`, i.e. `offsetof(struct C, M) / sizeof(var)`); these are the functions
+    the harness calls on objects of run-time types (ops `c`, `d`, `f`, `g`) -/
+theorem C08_dispatch_sites :
+    (∀ s ∈ CelloGen.Disp.methodSites ++ CelloGen.Disp.instanceSites,
+      CelloGen.Disp.classArity.any (fun a => a.1 = s.2.1 && s.2.2.2 < a.2) = true) ∧
+    20 ≤ CelloGen.Disp.methodSites.length := by decide
+
+/-- **A dispatching call invokes exactly what the receiver's type declares.**  For every world, every type object whose record
+    satisfies the invariant relative to a declaration `D`, and every use of it — the four lookups, a call of a library function
+    written with `method(self, C, M, …)` on an object of the type (`.call false k`), of one written with
+    `instance(self, C)` + member test (`.call true k`), `type_method(T, C, M, …)` (`.typeCall k`): the answer is `specUse`, a
+    function of `D` — member `k` of the declared instance is invoked; ClassError (nothing invoked) when a hard call finds no
+    instance or a NULL member; the default code when a soft one does. -/
+theorem C08_call_exact (w : World) (hs : w.slots = slotsNow) (a : Nat) (t : TypeRec) (hget : w.get a = some t)
+    (D : String → Option Inst) (hinv : Inv D w.slots CelloGen.Disp.cacheNum t) (way : Way) (cls : Cls) :
+    (useW w a way cls).2 = specUse t.sentinel D way cls := by
+  have hso : SlotsOK w.slots CelloGen.Disp.cacheNum := by rw [hs]; exact C08_slots_ok
+  exact useW_spec hso hget hinv way cls
+
+/-- **History independence (type objects named by identity, any address assignment).**  For the table and layout of the
+    current source, every heap of type objects named by ids that satisfies `AOK` (the heap invariant; no `cls` word holds the
+    address of a run-time type object; ids name live type objects, one each), and every **history** of
+    creations of run-time type objects at ANY address the allocator answers — a new one, or one at which any number of type
+    objects lived and died before (`allocOK`: only never a live one) —, deletions, white-box resets, and uses (the four
+    lookups, hard and soft dispatching calls on objects, `type_method`) with library classes:
+    the observations are `specIds` of the history WITH THE ADDRESSES ERASED — every use of a live type object is answered
+    from the instance list that very object was created with (`declOf es`: first triple with the class's name), a use of a
+    deleted one is `ub`, whatever lived at its address before, whatever was looked up on the previous occupant, whichever
+    cache words and memoised class pointers the previous occupant had warmed: `Type_Alloc`'s calloc and `Type_New` leave
+    none of it (`C08_type_new_any_storage`), and nothing outside the type object remembers a type by its address. -/
+theorem C08_history_independent (x : AHeap) (hs : x.h.w.slots = slotsNow) (hok : AOK CelloGen.Disp.cacheNum x)
+    (ops : List AOp) (hal : x.allocOK layoutNow ops = true) :
+    (AHeap.run layoutNow x ops).2 = specIds CelloGen.Disp.maxInstances x.decls (ops.map AOp.erase) ∧
+    AOK CelloGen.Disp.cacheNum (AHeap.run layoutNow x ops).1 := by
+  have hso : SlotsOK x.h.w.slots layoutNow.cacheNum := by rw [hs]; exact C08_slots_ok
+  exact AHeap.run_spec ops x hso hok hal
+
+/-- **The address assignment is irrelevant**: two histories that differ only in the addresses the allocator answered (same
+    creations, deletions and uses of the same ids), run on heaps whose ids name type objects with the same declarations,
+    produce the same observations. -/
+theorem C08_address_assignment_irrelevant (x y : AHeap) (hsx : x.h.w.slots = slotsNow) (hsy : y.h.w.slots = slotsNow)
+    (hx : AOK CelloGen.Disp.cacheNum x) (hy : AOK CelloGen.Disp.cacheNum y) (hd : x.decls = y.decls)
+    (ops ops' : List AOp) (he : ops.map AOp.erase = ops'.map AOp.erase)
+    (hax : x.allocOK layoutNow ops = true) (hay : y.allocOK layoutNow ops' = true) :
+    (AHeap.run layoutNow x ops).2 = (AHeap.run layoutNow y ops').2 := by
+  rw [(C08_history_independent x hsx hx ops hax).1, (C08_history_independent y hsy hy ops' hay).1, hd, he]
+
+/-- the C-level identity of a type object is its address AND its generation: a successful creation at `addr` names the
+    type object `⟨addr, g⟩` where `g` type objects were constructed at `addr` before, and the count goes up — the next
+    occupant of the same address is another identity -/
+theorem C08_identity_is_address_and_generation (x : AHeap) (id addr : Nat) (name : String) (es : List (String × Inst))
+    (h : (x.step layoutNow (.create id addr name es)).2 = .constructed (.ok ())) :
+    (x.step layoutNow (.create id addr name es)).1.ident id = some ⟨addr, x.genAt addr⟩ ∧
+    (x.step layoutNow (.create id addr name es)).1.genAt addr = x.genAt addr + 1 := by
+  by_cases hc : ((x.addrOf id).isSome || (x.h.w.get addr).isSome) = true
+  · simp [AHeap.step, hc] at h
+  · cases hr : (x.h.construct layoutNow addr name es).2 with
+    | ok u =>
+      have hstep : x.step layoutNow (.create id addr name es) =
+          ({ h := (x.h.construct layoutNow addr name es).1, loc := (id, addr) :: x.loc, gen := x.bump addr },
+           .constructed (.ok ())) := by
+        simp only [AHeap.step, hc, hr, Bool.false_eq_true, if_false]
+      rw [hstep]
+      simp [AHeap.ident, AHeap.addrOf, AHeap.genAt, AHeap.bump]
+    | raised e => simp [AHeap.step, hc, hr] at h
+    | ub => simp [AHeap.step, hc, hr] at h
+
+/-- witness heap: `Type` (id 0 at address 0) alone -/
+def idHeap : AHeap :=
+  { h := { w := { slots := slotsNow, theType := 0, types := [(0, mkType CelloGen.Disp.cacheNum false [])] }, names := [] },
+    loc := [(0, 0)], gen := [(0, 1)] }
+
+/-- Non-vacuity of `C08_history_independent`, and the history of the seeded inline cache on the model of the code as it is:
+    `Alpha` (id 1) is created at address 7 with `Call = A`, `Len = L1`; `call_with` (hard, uncached class), `len` (hard, cached
+    class: the cache word and the memoised class pointer of the OCCUPANT are warmed), a soft `hash` (absent: default code) are
+    called on an `Alpha` object; `Alpha` is deleted; `Beta` (id 2) is created AT THE SAME ADDRESS with another `Call` instance
+    and a `Len` instance whose member is NULL; `Gamma` (id 3), after `Beta` is deleted, again at address 7 with nothing: the same
+    calls answer `B`, ClassError, ClassError — and `Alpha`, used after its deletion, is `ub`.  The generation of address 7 is 3. -/
+example :
+    let A : Inst := ⟨1, [true]⟩; let L1 : Inst := ⟨2, [true]⟩; let B : Inst := ⟨3, [true]⟩; let L2 : Inst := ⟨4, [false]⟩
+    let ops : List AOp :=
+      [.create 1 7 "Alpha" [("Call", A), ("Len", L1)], .use 1 (.call false 0) "Call", .use 1 (.call false 0) "Len",
+       .use 1 (.call true 0) "Hash", .use 1 (.look .inst) "Len", .delete 1,
+       .create 2 7 "Beta" [("Call", B), ("Len", L2)], .use 2 (.call false 0) "Call", .use 2 (.call false 0) "Len",
+       .use 2 (.typeCall 0) "Call", .use 1 (.call false 0) "Call", .delete 2,
+       .create 3 7 "Gamma" [], .use 3 (.call false 0) "Call", .use 3 (.look (.implMeth 0)) "Len", .use 3 (.look .inst) "Len"]
+    idHeap.okb CelloGen.Disp.cacheNum = true ∧ idHeap.allocOK layoutNow ops = true ∧
+    (AHeap.run layoutNow idHeap ops).2 =
+      [.constructed (.ok ()), .call (.ok (.invoked A 0)), .call (.ok (.invoked L1 0)), .call (.ok .fallback),
+       .look (.inst (.ok (some L1))), .unit,
+       .constructed (.ok ()), .call (.ok (.invoked B 0)), .call (.raised .ClassError), .call (.ok (.invoked B 0)), .ub, .unit,
+       .constructed (.ok ()), .call (.raised .ClassError), .look (.bool (.ok false)), .look (.inst (.ok none))] ∧
+    (AHeap.run layoutNow idHeap ops).1.ident 3 = some ⟨7, 2⟩ ∧ (AHeap.run layoutNow idHeap ops).1.genAt 7 = 3 := by
+  decide +kernel
+
+/-- what the theorem needs of the initial heap is decidable: `AHeap.okb` implies `AOK` -/
+example : AOK CelloGen.Disp.cacheNum idHeap := aok_of_okb (by decide +kernel)
+
+/-- the full statement for a VARIANT of the code in which a call site (or a lookup function) remembers, under the ADDRESS of the
+    receiver's type, the instance it found last time (`MemoHeap`: an inline cache in the `method` macro, a "last lookup" memo
+    in `Type_Instance`): every hard call made at a call site answers what the address-free spec says -/
+def C08_address_keyed_memo_statement : Prop :=
+  ∀ (ops : List MOp), idHeap.allocOK layoutNow (ops.map MOp.plain) = true →
+    (MemoHeap.run layoutNow { x := idHeap, memo := [] } ops).2 =
+      specIds CelloGen.Disp.maxInstances idHeap.decls (ops.map (fun o => o.plain.erase))
+
+/-- **Refuted** — such a memo is not the code (the `method` macro keeps no state, `C08_source_as_modelled`; `Type_Instance` keeps
+    its memo inside the type object, which dies with it), and it cannot be: an address does not identify a type object.
+    `Alpha` with `Call = A` at address 7, `call_with` at call site 0, `Alpha` deleted, `Beta` with `Call = B` created at address 7,
+    `call_with` at call site 0 on a `Beta` object: `A` — the member of a type object that no longer exists — is invoked;
+    with `Gamma`, which declares no `Call`, ClassError is not raised.  The same erased history with `Beta` at address 8 is
+    answered correctly, so the observations depend on the allocator. -/
+theorem C08_address_keyed_memo_refuted : ¬ C08_address_keyed_memo_statement := by
+  intro hst
+  have := hst [.op (.create 1 7 "Alpha" [("Call", ⟨1, [true]⟩)]), .callAt 0 1 "Call" 0, .op (.delete 1),
+               .op (.create 2 7 "Beta" [("Call", ⟨3, [true]⟩)]), .callAt 0 2 "Call" 0] (by decide +kernel)
+  revert this
+  decide +kernel
+
+/-- what the variant answers on the two witnesses, next to the same histories with the second type object at another
+    address (answered correctly), and the model of the code as it is on the same histories -/
+example :
+    let A : Inst := ⟨1, [true]⟩; let B : Inst := ⟨3, [true]⟩
+    let pre : List MOp := [.op (.create 1 7 "Alpha" [("Call", A)]), .callAt 0 1 "Call" 0, .op (.delete 1)]
+    let m0 : MemoHeap := { x := idHeap, memo := [] }
+    (MemoHeap.run layoutNow m0 (pre ++ [.op (.create 2 7 "Beta" [("Call", B)]), .callAt 0 2 "Call" 0])).2.drop 3 =
+      [.constructed (.ok ()), .call (.ok (.invoked A 0))] ∧
+    (MemoHeap.run layoutNow m0 (pre ++ [.op (.create 2 8 "Beta" [("Call", B)]), .callAt 0 2 "Call" 0])).2.drop 3 =
+      [.constructed (.ok ()), .call (.ok (.invoked B 0))] ∧
+    (MemoHeap.run layoutNow m0 (pre ++ [.op (.create 2 7 "Gamma" []), .callAt 0 2 "Call" 0])).2.drop 3 =
+      [.constructed (.ok ()), .call (.ok (.invoked A 0))] ∧
+    (AHeap.run layoutNow idHeap ((pre ++ [MOp.op (.create 2 7 "Gamma" []), MOp.callAt 0 2 "Call" 0]).map MOp.plain)).2.drop 3 =
+      [.constructed (.ok ()), .call (.raised .ClassError)] := by
   decide +kernel
 
 /-! ## names are pointers: the strings a run-time type object borrows (known finding KF-C08-borrowed-name) -/
